@@ -3,9 +3,10 @@ import itertools, re
 from vlib import core
 
 PROP = 'C10'
-MODULES = ['PistacheModel.Props.C10']
+MODULES = ['PistacheModel.Props.C10', 'PistacheModel.Props.C10Slashes']
 THEOREMS = ['Pistache.Router.Props.' + t for t in (
-    'leafFind_sound', 'findRoute_sound', 'findRoute_complete', 'fixed_wins', 'param_wins', 'own_route_wins', 'remove_only_that')]
+    'leafFind_sound', 'findRoute_sound', 'findRoute_complete', 'fixed_wins', 'param_wins', 'own_route_wins', 'remove_only_that',
+    'duplicate_slash_irrelevant', 'slash_run_irrelevant', 'trailing_slash_irrelevant', 'pattern_slashes_irrelevant')]
 
 ALPHA = ['a', 'b', ':x', ':y', ':x?', ':y?', '*']
 PSEG = ['a', 'b', 'c']
